@@ -49,6 +49,19 @@ func main() {
 			usage()
 		}
 		os.Exit(runReplayCmd(*repo, *verif, fs.Arg(0)))
+	case "frag":
+		_, all, err := loadContracts(*repo, "github.com/arnodel/golua")
+		if err != nil {
+			fmt.Fprintln(os.Stderr, err)
+			os.Exit(2)
+		}
+		for k, v := range fragOverlay(*repo, all, nil) {
+			fmt.Printf("// ==== %s\n%s\n", k, v)
+		}
+		for k, fi := range fragReport {
+			fmt.Printf("// %s: %s:%d-%d params=%v rewrites=%d err=%q\n", k, fi.File, fi.From, fi.To, fi.Params, fi.Rewrite, fi.Err)
+		}
+		os.Exit(0)
 	case "selftest":
 		os.Exit(runSelftest(*repo, *verif, *prop, *tier))
 	default:
